@@ -258,3 +258,112 @@ _SAA.update(
 )
 contract(**_SAA)
 
+
+
+# ------------------------------------------------------------------------------------------------ MoleculeSampler.__init__
+# The constructor establishes what sample() / add_fragment() require of the sampler object: the partner table lists, under
+# each descriptor, exactly template atoms that carry it; every key of the table is a descriptor; with atomistic fragments and
+# no mass table every fragment gets a (positive) mass computed from a COPY of the template.
+def _ex_init():
+    import logging
+    logging.getLogger('pysmiles').setLevel(logging.ERROR)
+    from cgsmiles.read_fragments import read_fragments
+    configs = [("{#PEO=[$]COC[$]}", True, dict(polymer_reactivities={'$': 1.0})),
+               ("{#PEO=[>]COC[<],#OH=[$]O}", True, dict(polymer_reactivities={'>': 0.4, '<': 0.4, '$': 0.2}, terminal_bonds=['$'])),
+               ("{#A=[$][#a][#b][$],#B=[$A][#c]}", False, dict(polymer_reactivities={'$': 1.0, '$A': 0.0}, fragment_masses={'A': 2, 'B': 1})),
+               ("{#A=[>A][#a][<A]}", False, dict(polymer_reactivities={'>A': 0.5, '<A': 0.5}, fragment_masses={'A': 2.5})),
+               ("{#PS=[$A]CC[$B]c1ccccc1,#PMA=[$A]CC[$B]C(=O)OC}", True,
+                dict(polymer_reactivities={'$A': 0.5, '$B': 0.5}, fragment_reactivities={'$A': {'$A': 0.0, '$B': 1.0}, '$B': {'$A': 1.0, '$B': 0.0}})),
+               ("{#A=[$][#a][$]}", False, dict(polymer_reactivities={'$': 1.0})),
+               ("{#A=[$][#a][$]}", False, dict(polymer_reactivities={'$': 1.0}, fragment_masses={})),
+               ("{#PEO=[$]COC[$]}", True, dict(polymer_reactivities={'$': 1.0}, fragment_masses={}))]
+    from cgsmiles.sample import MoleculeSampler
+    for text, aa, kw in configs:
+        try:
+            frags = read_fragments(text, all_atom=aa)
+        except Exception:      # noqa: preparation failed (a changed tree): this example is skipped
+            continue
+        obj = MoleculeSampler.__new__(MoleculeSampler)
+        args = dict(fragment_reactivities={}, terminal_bonds=[], fragment_masses=None, seed=3)
+        args.update(kw)
+        yield dict(self=obj, fragment_dict=frags, all_atom=aa, **args)
+
+
+_FBB = "self.fragments_by_bonding"
+_INIT_TABLE = ("all(fn[0] in fragment_dict and has_node(fragment_dict[fn[0]], fn[1]) and has_attr(fragment_dict[fn[0]], fn[1], 'bonding') and "
+               "member(b, attr(fragment_dict[fn[0]], fn[1], 'bonding')) for b in keys(" + _FBB + ") for fn in " + _FBB + "[b])")
+_INIT_COMPLETE = ("all(all(all(d in " + _FBB + " and member((f, n), " + _FBB + "[d]) for d in attr(fragment_dict[f], n, 'bonding')) "
+                  "for n in nodes(fragment_dict[f]) if has_attr(fragment_dict[f], n, 'bonding'){inner}) for f in keys(fragment_dict){outer})")
+
+contract(
+    target='cgsmiles.sample:MoleculeSampler.__init__', serves=['C16', 'C17'],
+    self_fields={'fragment_dict': 'Dict[Str,Graph:tmpl]', 'terminal_bonds': 'List[Str]',
+                 'fragments_by_bonding': 'DefaultDict[Str,List[Tuple[Str,Int]]]', 'terminals_by_bonding': 'DefaultDict[Str,List[Tuple[Str,Int]]]',
+                 'polymer_reactivities': 'Dict[Str,Real]', 'fragment_reactivities': 'Dict[Str,Dict[Str,Real]]',
+                 'fragment_masses': 'Dict[Str,Real]', 'all_atom': 'Bool'},
+    types={'fragment_dict': 'Dict[Str,Graph:tmpl]', 'polymer_reactivities': 'Dict[Str,Real]', 'fragment_reactivities': 'Dict[Str,Dict[Str,Real]]',
+           'terminal_bonds': 'List[Str]', 'fragment_masses': 'Opt[Dict[Str,Real]]', 'all_atom': 'Bool', 'seed': 'Opt[Int]'},
+    returns=None, locals={'bondings': 'Dict[Int,List[Str]]'},
+    requires=[
+        # descriptor spellings: non-empty, and no two keys that collide once the default order '1' is appended
+        "all(len(b) >= 1 for b in keys(polymer_reactivities)) and all(len(b) >= 1 for b in terminal_bonds)",
+        "all(implies(default_suffix(keys(polymer_reactivities)[a]) == default_suffix(keys(polymer_reactivities)[b]), a == b) "
+        "for a in range(len(polymer_reactivities)) for b in range(len(polymer_reactivities)))",
+        "all(len(k) >= 1 and all(len(b) >= 1 for b in keys(fragment_reactivities[k])) and "
+        "all(implies(default_suffix(keys(fragment_reactivities[k])[a]) == default_suffix(keys(fragment_reactivities[k])[b]), a == b) "
+        "for a in range(len(fragment_reactivities[k])) for b in range(len(fragment_reactivities[k]))) for k in keys(fragment_reactivities))",
+        # a mass table is given, or the fragments are atomistic and fit for hydrogen completion with known elements
+        "implies(fragment_masses is None or len(fragment_masses) == 0, implies(all_atom, " + _TMPL_ATTRS.replace('self.fragment_dict', 'fragment_dict')
+        + " and all(all(implies(has_attr(fragment_dict[f], n, 'element') and attr(fragment_dict[f], n, 'element') == 'H' and "
+        "not (has_attr(fragment_dict[f], n, 'single_h_frag') and attr(fragment_dict[f], n, 'single_h_frag')), has_neighbor(fragment_dict[f], n)) "
+        "for n in nodes(fragment_dict[f])) for f in keys(fragment_dict))"
+        " and all(all(known_element(attr(fragment_dict[f], n, 'element')) for n in nodes(fragment_dict[f])) for f in keys(fragment_dict)) and known_element('H')))",
+    ],
+    ensures=[
+        "self.all_atom == all_atom and len(self.fragment_dict) == len(fragment_dict) and "
+        "all(f in self.fragment_dict and self.fragment_dict[f] == fragment_dict[f] for f in keys(fragment_dict))",
+        # the partner table: sound (every entry is a template atom carrying the descriptor it is listed under) ...
+        _INIT_TABLE,
+        # ... and complete (every descriptor of every template atom is listed)
+        _INIT_COMPLETE.format(inner='', outer=''),
+        "all(is_descriptor(b) for b in keys(" + _FBB + "))",
+        # masses: the given table, or one positive computed mass per fragment
+        "implies(fragment_masses is not None and len(fragment_masses) > 0, "
+        "all(f in self.fragment_masses and self.fragment_masses[f] == fragment_masses[f] for f in keys(fragment_masses)))",
+        "implies(fragment_masses is None or len(fragment_masses) == 0, all(f in self.fragment_masses for f in keys(fragment_dict)))",
+        # reactivities keep their values under the completed spelling of their keys
+        "all(default_suffix(k) in self.polymer_reactivities and self.polymer_reactivities[default_suffix(k)] == polymer_reactivities[k] "
+        "for k in keys(polymer_reactivities))",
+    ],
+    raises={'OSError': {'iff': True, 'when': "(fragment_masses is None or len(fragment_masses) == 0) and not all_atom"},
+            'SyntaxError': {'when': None}},
+    modifies=[], allocates=True, heap_invariants=['descriptors', 'fragid'], opaque=['is_descriptor'],
+    loops={
+        0: Loop(over='fragment_reactivities.items()', invariant=[]),
+        1: Loop(over='self.fragment_dict.items()', invariant=[
+            _INIT_TABLE, _INIT_COMPLETE.format(inner='', outer=' if key_index(fragment_dict, f) < _i1'),
+            "all(is_descriptor(b) for b in keys(" + _FBB + "))",
+            "implies(guess_mass_from_PTE, all(f in self.fragment_masses for f in keys(fragment_dict) if key_index(fragment_dict, f) < _i1))",
+            "implies(not guess_mass_from_PTE, fragment_masses is not None and "
+            "all(f in self.fragment_masses and self.fragment_masses[f] == fragment_masses[f] for f in keys(fragment_masses)))"]),
+        2: Loop(over='bondings.items()', invariant=[
+            _INIT_TABLE, _INIT_COMPLETE.format(inner='', outer=' if key_index(fragment_dict, f) < _i1'),
+            "all(is_descriptor(b) for b in keys(" + _FBB + "))",
+            "all(all(d in " + _FBB + " and member((fragname, n), " + _FBB + "[d]) for d in attr(fraggraph, n, 'bonding')) "
+            "for n in nodes(fraggraph) if has_attr(fraggraph, n, 'bonding') and key_index(_it2, n) < _i2)",
+            "fragname in fragment_dict and fragment_dict[fragname] == fraggraph and key_index(fragment_dict, fragname) == _i1",
+            "all((n in _it2) == (has_node(fraggraph, n) and has_attr(fraggraph, n, 'bonding')) for n in nodes(fraggraph))"]),
+        3: Loop(over='bondings', invariant=[
+            _INIT_TABLE, _INIT_COMPLETE.format(inner='', outer=' if key_index(fragment_dict, f) < _i1'),
+            "all(is_descriptor(b) for b in keys(" + _FBB + "))",
+            "all(all(d in " + _FBB + " and member((fragname, n), " + _FBB + "[d]) for d in attr(fraggraph, n, 'bonding')) "
+            "for n in nodes(fraggraph) if has_attr(fraggraph, n, 'bonding') and key_index(_it2, n) < _i2)",
+            "all(attr(fraggraph, node, 'bonding')[j] in " + _FBB + " and member((fragname, node), " + _FBB + "[attr(fraggraph, node, 'bonding')[j]]) "
+            "for j in range(_i3))",
+            # the list being walked is the descriptor list of `node` of the template under work
+            "has_node(fraggraph, node) and has_attr(fraggraph, node, 'bonding') and _it3 == attr(fraggraph, node, 'bonding')",
+            "node in _it2 and key_index(_it2, node) == _i2",
+            "fragname in fragment_dict and fragment_dict[fragname] == fraggraph and key_index(fragment_dict, fragname) == _i1"]),
+    },
+    examples=_ex_init,
+)
